@@ -327,6 +327,51 @@ def part_live(H, tmp):
             check_live(H, M, chain, 'raise_plain', EXCS[0][0], EXCS[0][1])
 
 
+def part_edited_source(H, tmp):
+    """a module file that is edited and reloaded between two exceptions: the source text shown must be the CURRENT one, as
+    in the traceback module (which re-validates its line cache on every rendering)"""
+    import importlib
+    import time as _time
+    path = os.path.join(tmp, 'c16_edit.py')
+    body = 'def boom(x):\n    y = x + %d  # version %d\n    raise ValueError(\'v%d\')  # marker %d\n'
+    sys.path.insert(0, tmp)
+    try:
+        M = None
+        for version in (1, 2, 3):
+            with open(path, 'w', encoding='utf-8') as f:
+                f.write(('# pad\n' * version) + body % (version, version, version, version))
+            os.utime(path, (_time.time() + version * 10, _time.time() + version * 10))
+            importlib.invalidate_caches()
+            M = importlib.import_module('c16_edit') if M is None else importlib.reload(M)
+            try:
+                M.boom(1)
+            except ValueError:
+                et, ev, tb = sys.exc_info()
+            witness = 'module file rewritten and reloaded, version %d' % version
+            # boltons renders FIRST: the traceback module re-validates the shared line cache as a side effect
+            ok, ei = H.guard(lambda: tbutils.ExceptionInfo.from_exc_info(et, ev, tb), 'frames_equal_traceback_module',
+                             'ExceptionInfo.from_exc_info', 'source file edited and reloaded between exceptions; raises', witness)
+            H.ev(key=('edited', version), nontrivial=True, part='live_edited', sample=witness)
+            if not ok:
+                continue
+            ok1, fr = H.guard(lambda: [(c.module_path, c.lineno, c.func_name, str(c.line).strip()) for c in ei.tb_info.frames],
+                              'frames_equal_traceback_module', 'ExceptionInfo.from_exc_info',
+                              'source file edited and reloaded between exceptions; reading frames raises', witness)
+            ok2, txt = H.guard(lambda: ei.get_formatted(), 'formatted_equals_interpreter', 'ExceptionInfo.get_formatted',
+                               'source file edited and reloaded between exceptions; raises', witness)
+            std = [(f.filename, f.lineno, f.name, (f.line or '').strip()) for f in traceback.extract_tb(tb)]
+            if ok1:
+                H.check(fr == std, 'frames_equal_traceback_module', 'ExceptionInfo.from_exc_info',
+                        'source file edited and reloaded between exceptions', witness, 'frames %r, traceback.extract_tb %r' % (fr, std))
+            if ok2:
+                want = strip_markers(''.join(traceback.format_exception(et, ev, tb)))
+                H.check(txt.rstrip('\n') == want.rstrip('\n'), 'formatted_equals_interpreter', 'ExceptionInfo.get_formatted',
+                        'source file edited and reloaded between exceptions', witness, 'got %r, interpreter %r' % (txt, want))
+    finally:
+        sys.path.remove(tmp)
+        sys.modules.pop('c16_edit', None)
+
+
 def run():
     H = Harness('C16',
                 rule='one evaluation = one rendered traceback text through from_string/to_string (non-trivial: at least one frame '
@@ -341,6 +386,7 @@ def run():
     try:
         if H.args.part in (None, 'live'):
             part_live(H, tmp)
+            part_edited_source(H, tmp)
         if H.args.part in (None, 'texts'):
             part_texts(H)
     finally:
